@@ -4,6 +4,7 @@ import (
 	"fmt"
 	"regexp"
 	"strconv"
+	"sync"
 
 	"github.com/github/go-spdx/v2/spdxexp"
 )
@@ -20,6 +21,50 @@ type Obs struct {
 	Invalid []string `json:"invalid,omitempty"`
 	Out     []string `json:"out,omitempty"`
 	OutNil  bool     `json:"outNil,omitempty"`
+	Aliased bool     `json:"aliased,omitempty"` // a slice RETURNED by an earlier call changed during this call
+}
+
+// Results handed to the caller belong to the caller.  Every returned slice is either scribbled over right away
+// (a library that keeps the slice - a memo, a pool - would serve the junk later) or retained with a snapshot and
+// re-examined after every later call (a library that recycles the slice would change it under the caller).
+type retained struct {
+	live []string
+	snap []string
+}
+
+var (
+	retainRing [16]retained
+	retainN    int
+	retainMu   sync.Mutex
+)
+
+func checkRetained() bool {
+	retainMu.Lock()
+	defer retainMu.Unlock()
+	for i := range retainRing {
+		r := retainRing[i]
+		if r.live != nil && !sameStrings(r.live, r.snap) {
+			retainRing[i] = retained{}
+			return true
+		}
+	}
+	return false
+}
+
+func disposeResult(res []string) {
+	if len(res) == 0 {
+		return
+	}
+	retainMu.Lock()
+	defer retainMu.Unlock()
+	retainN++
+	if retainN%2 == 0 {
+		for i := range res {
+			res[i] = "\x00scribbled-by-caller"
+		}
+		return
+	}
+	retainRing[retainN/2%len(retainRing)] = retained{live: res, snap: append([]string{}, res...)}
 }
 
 // guarded returns a slice whose backing array has two sentinel cells of spare
@@ -105,6 +150,8 @@ func obsValidate(list []string) (o Obs) {
 	ok, bad := spdxexp.ValidateLicenses(arg)
 	o.OK = ok
 	o.Invalid = append([]string{}, bad...)
+	o.Aliased = checkRetained()
+	disposeResult(bad)
 	return
 }
 
@@ -118,6 +165,8 @@ func obsExtract(e string) (o Obs) {
 	out, err := spdxexp.ExtractLicenses(e)
 	o.OutNil = out == nil
 	o.Out = append([]string{}, out...)
+	o.Aliased = checkRetained()
+	disposeResult(out)
 	if err != nil {
 		o.Err = true
 		o.ErrText = err.Error()
